@@ -22,7 +22,14 @@ var fileLog *fileLogger = nil // Current file logger instance if any
 var logLevel slog.LevelVar
 
 func OpenLogFileRead() (*os.File, error) {
-	assertedPath, err := assertedpath.TryAssert(fileLog.Path())
+	writersMu.Lock()
+	current := fileLog
+	writersMu.Unlock()
+	if current == nil {
+		return nil, ErrNoLogFile
+	}
+
+	assertedPath, err := assertedpath.TryAssert(current.Path())
 	if err != nil {
 		return nil, err
 	}
@@ -62,12 +69,29 @@ var initialized bool
 var subs config.ConfigSubscriber
 var levelMu sync.Mutex // serializes the handlers that follow the configured log level
 
+// Guards fileLog and serializes the rebuilding of the log writers: every logging setting has its
+// own change handler, and one update of several settings runs them concurrently.
+var writersMu sync.Mutex
+
 func SetLogLevel(level slog.Level) {
 	logLevel.Set(level)
 }
 
 func updateLogger(cfg *config.Config) io.Writer {
+	writersMu.Lock()
+	defer writersMu.Unlock()
+
 	slog.Info("Updating log writers...")
+
+	// The writer that is being replaced is closed once nothing logs to it any more
+	// (it owns a file handle and a background goroutine).
+	previous := fileLog
+	fileLog = nil
+	defer func() {
+		if previous != nil {
+			previous.Close()
+		}
+	}()
 
 	logToStdOut := cfg.Logging.ToStdout.Read()
 
